@@ -5,6 +5,8 @@ import (
 	"sync"
 	"sync/atomic"
 	"time"
+
+	"github.com/nsqio/nsq/internal/verif"
 )
 
 type RegistrationDB struct {
@@ -68,6 +70,7 @@ func (r *RegistrationDB) AddRegistration(k Registration) {
 	if !ok {
 		r.registrationMap[k] = make(map[string]*Producer)
 	}
+	verif.Ev("DBAddReg", "cat", k.Category, "key", k.Key, "sub", k.SubKey, "new", !ok)
 }
 
 // add a producer to a registration
@@ -83,6 +86,7 @@ func (r *RegistrationDB) AddProducer(k Registration, p *Producer) bool {
 	if !found {
 		producers[p.peerInfo.id] = p
 	}
+	verif.Ev("DBAddProd", "cat", k.Category, "key", k.Key, "sub", k.SubKey, "id", p.peerInfo.id, "added", !found, "n", len(producers))
 	return !found
 }
 
@@ -92,6 +96,7 @@ func (r *RegistrationDB) RemoveProducer(k Registration, id string) (bool, int) {
 	defer r.Unlock()
 	producers, ok := r.registrationMap[k]
 	if !ok {
+		verif.Ev("DBRemProd", "cat", k.Category, "key", k.Key, "sub", k.SubKey, "id", id, "removed", false, "left", 0, "haskey", false)
 		return false, 0
 	}
 	removed := false
@@ -101,6 +106,7 @@ func (r *RegistrationDB) RemoveProducer(k Registration, id string) (bool, int) {
 
 	// Note: this leaves keys in the DB even if they have empty lists
 	delete(producers, id)
+	verif.Ev("DBRemProd", "cat", k.Category, "key", k.Key, "sub", k.SubKey, "id", id, "removed", removed, "left", len(producers), "haskey", true)
 	return removed, len(producers)
 }
 
@@ -109,6 +115,7 @@ func (r *RegistrationDB) RemoveRegistration(k Registration) {
 	r.Lock()
 	defer r.Unlock()
 	delete(r.registrationMap, k)
+	verif.Ev("DBRemReg", "cat", k.Category, "key", k.Key, "sub", k.SubKey)
 }
 
 // remove a Registration only if it has no producers (left); the check and
@@ -117,9 +124,11 @@ func (r *RegistrationDB) RemoveRegistrationIfEmpty(k Registration) bool {
 	r.Lock()
 	defer r.Unlock()
 	if len(r.registrationMap[k]) > 0 {
+		verif.Ev("DBRemRegSkip", "cat", k.Category, "key", k.Key, "sub", k.SubKey, "n", len(r.registrationMap[k]))
 		return false
 	}
 	delete(r.registrationMap, k)
+	verif.Ev("DBRemReg", "cat", k.Category, "key", k.Key, "sub", k.SubKey)
 	return true
 }
 
